@@ -51,6 +51,8 @@ def run(ctx, binp, obs, inputs, info_all):
     if q:
         # names that need escaping (blank, %, #, ?, non-ASCII, quotes): the hrefs reported for them must lead back to them
         rec("raw-special-s0", mode="product", trees=trees, reqs=rawout, style=0, conc="special", follow="true")
+        # names beginning or ending with dots (not dot segments)
+        rec("raw-dots-s0", mode="product", trees=trees, reqs=rawout, style=0, conc="dots", follow="true")
     rec("rand", mode="rand", trees=trees, n=(3000 if q else 60000), conc="id")
     return checks_dav.judge_and_finish(ctx, binp, obs, inputs, info_all, len(TREES), nraw, tags=("C03", "C01"),
                                        extra_cov={"raw_request_universe": nraw, "spellings": styles, "concretisations": concs,
